@@ -111,6 +111,8 @@ def grid_index(W, H, allb):
 
 def die_cells(d):
     """number of cells of the die's grid of cut coordinates (the cost of evaluating the model on it)"""
+    if not isinstance(d["op"]["doc"], dict):
+        return 999                                    # a die given as text: never probed against the model
     W, H, boxes, fixed, _ = die_parts(d)
     g = grid_index(W, H, [b[:4] for b in boxes] + fixed)
     return 999 if g is None else (len(g[0]) - 1) * (len(g[1]) - 1)
@@ -238,6 +240,13 @@ def rel_die(rng, d):
     if "regions" in doc:
         doc["regions"] = [ints(v) for v in doc["regions"]] if not isinstance(doc["regions"][0], list) else \
             [[ints(v) for v in r] for r in doc["regions"]]
+    out.append(m)
+    # the same die as YAML text, and the bare die as '<W>x<H>'
+    m = mk(boxes, fixed, "form")
+    m["op"]["doc"] = json.dumps(m["op"]["doc"])
+    out.append(m)
+    m = mk([], [], "form")
+    m["op"]["doc"] = f"{fl(W)!r}x{fl(H)!r}"
     out.append(m)
     return out
 
@@ -602,6 +611,9 @@ def rel_netlist(rng, d):
         out.append(mk({"k": "netlist", "doc": dict(doc, Modules=m2)}, "swap-shapes"))
         m2 = {k: v for k, v in mods.items() if k != a}
         out.append(mk({"k": "netlist", "doc": dict(doc, Modules=m2)}, "drop"))
+        m2 = dict(mods)
+        m2[a + "_0"] = copy.deepcopy(mods[a])          # names that are prefixes of each other: A and A_0
+        out.append(mk({"k": "netlist", "doc": dict(doc, Modules=m2)}, "prefix-name"))
         ren = {a: a + "_0"}
         m2 = {ren.get(k, k): v for k, v in mods.items()}
         n2 = [[ren.get(x, x) if isinstance(x, str) else x for x in n] if isinstance(n, list) else n
